@@ -848,6 +848,34 @@ def unmap_leaving(rs):
     return Chem.MolToSmiles(mr, canonical=False) + ">>" + rs.split(">>")[1] if hit else None
 
 
+def product_only_high(rs, rnd):
+    """One or two mapped reactant atoms lose their map number while the product partner keeps it, renumbered just
+    above every remaining reactant map number: a legal partially mapped spelling in which a map number occurs on
+    the product side only and is exactly what a 'next free id' computed from the reactants alone would hand out
+    (seed C09-g).  None when the reaction has no shared map number."""
+    from rdkit import Chem
+
+    mr, mp = side_mols(rs)
+    a = {x.GetAtomMapNum() for x in mr.GetAtoms()} - {0}
+    b = {x.GetAtomMapNum() for x in mp.GetAtoms()} - {0}
+    shared = sorted(a & b)
+    if len(shared) < 2:
+        return None
+    drop = rnd.sample(shared, rnd.choice([1, 1, 2]) if len(shared) > 2 else 1)
+    for x in mr.GetAtoms():
+        if x.GetAtomMapNum() in drop:
+            x.SetAtomMapNum(0)
+    top = max(a - set(drop))
+    high = max(top, max(b - set(drop), default=0))      # stay clear of the product's other numbers
+    ren = {}
+    for i, d in enumerate(drop):
+        ren[d] = top + 1 + i if top + 1 + i not in (b - set(drop)) else high + 1 + i
+    for x in mp.GetAtoms():
+        if x.GetAtomMapNum() in ren:
+            x.SetAtomMapNum(ren[x.GetAtomMapNum()])
+    return Chem.MolToSmiles(mr, canonical=False) + ">>" + Chem.MolToSmiles(mp, canonical=False)
+
+
 def add_reagents(rs, frags, rnd):
     lhs, rhs = rs.split(">>")
     fr = lhs.split(".")
@@ -1120,6 +1148,8 @@ def gen_partial(rnd, pool, n_steps, backend, light_only=False):
             again = [f for f in frags if f in twice]
             frags.append(rnd.choice(again) if again else rnd.choice(twice))
         x = add_reagents(r, frags, rnd)
+        if rnd.random() < 0.35:
+            x = product_only_high(x, rnd) or x
         hist.append(x)
         if rnd.random() < 0.2 and len(hist) < n_steps:
             hist.append(x)
